@@ -11,12 +11,12 @@ CONSTANTS
   RG = 2
   QOrphan = TRUE
   QUnknownDsn = TRUE
-  QSplit = FALSE
+  QSplit = TRUE
   QDefaultSync = TRUE
   QHeaderIgnored = TRUE
   WT = 1
   MaxNow = 0
   WdKinds <- WdKindsLogs
-  QWdFirst = FALSE
-  OutFile = "cases_q.json"
+  QWdFirst = TRUE
+  OutFile = "cases_m.json"
 CHECK_DEADLOCK FALSE
